@@ -82,7 +82,7 @@ def all_close(xs, ys, scale=1.0):
 
 
 # ---------------------------------------------------------------- tiny environment
-def make_env(continuous: bool, seed: int, reward_scale: float = 1.0):
+def make_env(continuous: bool, seed: int, reward_scale: float = 1.0, image_dict: bool = False):
     import gymnasium as gym
     import numpy as np
     from gymnasium import spaces
@@ -92,13 +92,18 @@ def make_env(continuous: bool, seed: int, reward_scale: float = 1.0):
 
         def __init__(self):
             self.observation_space = spaces.Box(-2, 2, (3,), dtype=np.float32)
+            if image_dict:
+                self.observation_space = spaces.Dict({"img": spaces.Box(0, 255, (1, 36, 36), dtype=np.uint8), "vec": spaces.Box(-2, 2, (3,), dtype=np.float32)})
             self.action_space = spaces.Box(-1, 1, (2,), dtype=np.float32) if continuous else spaces.Discrete(3)
             self._rng = np.random.default_rng(seed)
             self._t = 0
             self._len = 3
 
         def _obs(self):
-            return self._rng.uniform(-1, 1, 3).astype(np.float32)
+            v = self._rng.uniform(-1, 1, 3).astype(np.float32)
+            if image_dict:
+                return {"img": self._rng.integers(0, 256, (1, 36, 36)).astype(np.uint8), "vec": v}
+            return v
 
         def reset(self, *, seed=None, options=None):
             self._t = 0
@@ -399,7 +404,8 @@ def analyse_onpolicy(rec, label, opt):
     (obs_in, act_in), (values, log_prob, entropy) = ev[0][1], ev[0][2]
     # batch wiring
     want_act = b.actions.long().flatten() if isinstance(m.action_space, spaces.Discrete) else b.actions
-    if not (th.equal(obs_in, b.observations) and th.equal(act_in, want_act)):
+    same_obs = (all(th.equal(obs_in[k_], b.observations[k_]) for k_ in b.observations) if isinstance(b.observations, dict) else th.equal(obs_in, b.observations))
+    if not (same_obs and th.equal(act_in, want_act)):
         rec.prob(f"oracle-{algo}-batch-wiring", "evaluate_actions was not called on the minibatch's observations/actions")
     n = len(b.advantages)
     adv = np.array(f64(b.advantages))
@@ -459,7 +465,53 @@ def analyse_onpolicy(rec, label, opt):
     outs = [log_prob, values] + ([entropy] if has_ent else [])
     douts = [dlp, dv] + ([dent] if has_ent else [])
     check_param_grads(rec, label, opt, outs, douts, clipped=True)
+    check_objective_gradient_independently(rec, opt, b, want_act, A, cfg, algo, c if algo == "ppo" else None)
     rec.count(f"{algo}_steps")
+
+
+def check_objective_gradient_independently(rec, opt, b, actions, A, cfg, algo, clip):
+    """the gradient handed to the optimizer vs the gradient of the PUBLISHED objective built from the policy's public
+    value function and action distribution (predict_values / get_distribution on the same parameters), not from the
+    tensors evaluate_actions returned"""
+    import torch as th
+
+    pol = rec.model.policy
+    params = [p for g in opt.param_groups for p in g["params"]]
+    v = pol.predict_values(b.observations).flatten()
+    dist = pol.get_distribution(b.observations)
+    lp = dist.log_prob(actions)
+    ent = dist.entropy()
+    adv = th.as_tensor(A, dtype=lp.dtype)
+    ret, oldv, oldlp = b.returns.detach(), b.old_values.detach(), b.old_log_prob.detach()
+    if algo == "ppo":
+        ratio = th.exp(lp - oldlp)
+        pol_loss = -th.min(adv * ratio, adv * th.clamp(ratio, 1 - clip, 1 + clip)).mean()
+        cv = cfg["clip_range_vf"]
+        vp = v if cv is None else oldv + th.clamp(v - oldv, -cv, cv)
+    else:
+        pol_loss = -(adv * lp).mean()
+        vp = v
+    val_loss = ((ret - vp) ** 2).mean()
+    ent_loss = lp.mean() if ent is None else -ent.mean()
+    objective = pol_loss + cfg["ent_coef"] * ent_loss + cfg["vf_coef"] * val_loss
+    ref = th.autograd.grad(objective, params, allow_unused=True)
+    ref = [th.zeros_like(p) if g is None else g for p, g in zip(params, ref)]
+    cl = rec.cur["clip"]
+    if cl is None:
+        return
+    pre = {id(p): (th.zeros_like(p) if g is None else g) for p, g in zip(cl["params"], cl["pre"])}
+    scale = max(1e-12, max(float(g.abs().max()) for g in ref))
+    names = {id(p): n for n, p in pol.named_parameters()}
+    for p, g in zip(params, ref):
+        got = pre.get(id(p), th.zeros_like(p))
+        d = (got.double() - g.double()).abs()
+        lim = RTOL * th.maximum(got.double().abs(), g.double().abs()) + ATOL + 1e-4 * scale
+        if float((d - lim).max()) > 0:
+            rec.prob(f"oracle-{algo}-parameter-gradient-not-gradient-of-objective",
+                     f"parameter {names.get(id(p), '?')}: gradient handed to the optimizer (max |g| {float(got.abs().max()):.4g}) differs from the gradient of policy + ent_coef*entropy + vf_coef*value loss "
+                     f"built from policy.predict_values / policy.get_distribution (max |g| {float(g.abs().max()):.4g}, max abs diff {float(d.max()):.4g})")
+            break
+    rec.count("independent_objective_gradients_checked")
 
 
 def check_rollout_cells(rec, b):
@@ -741,6 +793,12 @@ def gen_configs(rng, tier):
         dict(algo="ddpg", continuous=True, batch_size=4, gamma=0.9, n_critics=1, default_critics=True, policy_delay=1, target_policy_noise=0.1, target_noise_clip=0.0, total=18, learning_starts=8,
              train_freq=2, gradient_steps=1),
         dict(algo="sac", continuous=True, batch_size=4, gamma=0.9, ent_coef="0.3", n_critics=2, total=18, learning_starts=8, train_freq=3, gradient_steps=-1),
+        # separate PARAMETRIC feature extractors for actor and critic (custom Linear extractor; NatureCNN inside MultiInputPolicy)
+        dict(algo="ppo", continuous=True, n_steps=8, batch_size=4, n_epochs=2, clip_range=0.2, clip_range_vf=None, normalize_advantage=True, ent_coef=0.01, vf_coef=0.5,
+             max_grad_norm=0.5, gamma=0.95, total=16, share=False, custom_extractor=True),
+        dict(algo="a2c", continuous=False, n_steps=5, normalize_advantage=False, ent_coef=0.01, vf_coef=0.5, max_grad_norm=0.5, gamma=0.95, total=15, share=False, custom_extractor=True),
+        dict(algo="ppo", continuous=False, n_steps=6, batch_size=6, n_epochs=1, clip_range=0.2, clip_range_vf=0.5, normalize_advantage=True, ent_coef=0.0, vf_coef=0.7,
+             max_grad_norm=1.0, gamma=0.9, total=12, share=False, image_dict=True),
     ]
     out = []
     reps = 1 if tier == "quick" else 10
@@ -759,6 +817,23 @@ def gen_configs(rng, tier):
     return out
 
 
+def tiny_extractor_class():
+    import torch as th
+    from stable_baselines3.common.torch_layers import BaseFeaturesExtractor
+
+    class TinyExtractor(BaseFeaturesExtractor):
+        """a features extractor WITH parameters (Linear + Tanh), so that separate actor / critic extractors differ"""
+
+        def __init__(self, observation_space, features_dim: int = 6):
+            super().__init__(observation_space, features_dim)
+            self.net = th.nn.Sequential(th.nn.Linear(int(observation_space.shape[0]), features_dim), th.nn.Tanh())
+
+        def forward(self, observations):
+            return self.net(observations)
+
+    return TinyExtractor
+
+
 def build_model(cfg):
     import torch as th
 
@@ -766,7 +841,7 @@ def build_model(cfg):
     import stable_baselines3 as sb3
 
     algo = cfg["algo"]
-    env = make_env(cfg["continuous"], cfg["seed"], cfg.get("reward_scale", 1.0))
+    env = make_env(cfg["continuous"], cfg["seed"], cfg.get("reward_scale", 1.0), cfg.get("image_dict", False))
     if cfg.get("n_envs", 1) > 1:
         from stable_baselines3.common.vec_env import DummyVecEnv
 
@@ -780,15 +855,19 @@ def build_model(cfg):
         pk = dict(net_arch=dict(pi=[8], vf=[8]), share_features_extractor=cfg.get("share", True))
         if cfg.get("squash"):
             pk["squash_output"] = True
-        m = sb3.PPO("MlpPolicy", env, n_steps=cfg["n_steps"], batch_size=cfg["batch_size"], n_epochs=cfg["n_epochs"],
+        if cfg.get("custom_extractor"):
+            pk["features_extractor_class"] = tiny_extractor_class()
+        m = sb3.PPO("MultiInputPolicy" if cfg.get("image_dict") else "MlpPolicy", env, n_steps=cfg["n_steps"], batch_size=cfg["batch_size"], n_epochs=cfg["n_epochs"],
                     clip_range=(lambda p: c0 * (0.5 + 0.5 * p)) if cfg.get("linear_clip") else c0, clip_range_vf=cfg["clip_range_vf"], normalize_advantage=cfg["normalize_advantage"],
                     ent_coef=cfg["ent_coef"], vf_coef=cfg["vf_coef"], max_grad_norm=cfg["max_grad_norm"], use_sde=cfg.get("use_sde", False), target_kl=cfg.get("target_kl"),
                     policy_kwargs=pk, **common_kw)
     elif algo == "a2c":
-        pk = dict(net_arch=dict(pi=[8], vf=[8]))
+        pk = dict(net_arch=dict(pi=[8], vf=[8]), share_features_extractor=cfg.get("share", True))
         if cfg.get("squash"):
             pk["squash_output"] = True
-        m = sb3.A2C("MlpPolicy", env, n_steps=cfg["n_steps"], normalize_advantage=cfg["normalize_advantage"], ent_coef=cfg["ent_coef"], vf_coef=cfg["vf_coef"],
+        if cfg.get("custom_extractor"):
+            pk["features_extractor_class"] = tiny_extractor_class()
+        m = sb3.A2C("MultiInputPolicy" if cfg.get("image_dict") else "MlpPolicy", env, n_steps=cfg["n_steps"], normalize_advantage=cfg["normalize_advantage"], ent_coef=cfg["ent_coef"], vf_coef=cfg["vf_coef"],
                     max_grad_norm=cfg["max_grad_norm"], use_sde=cfg.get("use_sde", False), policy_kwargs=pk, **common_kw)
     elif algo == "dqn":
         m = sb3.DQN("MlpPolicy", env, batch_size=cfg["batch_size"], max_grad_norm=cfg["max_grad_norm"], learning_starts=cfg["learning_starts"], train_freq=cfg["train_freq"],
